@@ -40,6 +40,7 @@ type c14Case struct {
 	Iter          int    `json:"iter"`
 	Nonce         string `json:"server_nonce"`
 	Challenge     string `json:"cram_challenge"`
+	ScramExt      string `json:"scram_server_first_extensions,omitempty"` // optional extensions behind i= (RFC 5802 section 7)
 	TLSVersion    string `json:"tls"`                      // none | 1.2 | 1.3
 	Via           string `json:"via"`                      // client (mail.Client) | direct (smtp.Client.Auth) | retry (same Auth object twice)
 	RetryVariant  string `json:"retry_variant,omitempty"`  // what differs at the server on the second attempt: same | iter | salt | both | nonce
@@ -133,6 +134,9 @@ func genC14(r *mrand.Rand, i int) c14Case {
 		// the challenge is an opaque octet string: white space at its ends, control characters and NUL belong to it
 		"<id@host>\r\n", " <id@host>", "\tnonce\t", "<id@host>\u00a0", "\x0c<id@host> ", "a\x00b", "\n", "  "})
 	c.TLSVersion = gen.Pick(r, []string{"1.2", "1.3"})
+	if r.Intn(4) == 0 {
+		c.ScramExt = gen.Pick(r, []string{"t=ext1", "t=ext1,u=x=y", "x=" + strings.Repeat("e", 100)})
+	}
 	if !isPlus(c.Mech) && r.Intn(2) == 0 && (isScram(c.Mech) || c.Mech == "CRAM-MD5" || c.Mech == "XOAUTH2") {
 		c.TLSVersion = "none"
 	}
@@ -174,7 +178,7 @@ func tlsVer(s string) uint16 {
 }
 
 func (c *c14Case) srv(n int) *authSrv {
-	a := &authSrv{User: c.StoredUser, Pass: c.StoredPass, Iter: c.Iter, ServerNonce: c.Nonce, CramChallenge: c.Challenge}
+	a := &authSrv{User: c.StoredUser, Pass: c.StoredPass, Iter: c.Iter, ServerNonce: c.Nonce, CramChallenge: c.Challenge, ScramExt: c.ScramExt}
 	// a retry on the same Auth object meets a server whose parameters have changed
 	saltSeed := 0
 	if n > 0 {
@@ -412,7 +416,7 @@ func runC14Case(r *ev.Run, c c14Case, nonces *c14Nonces) {
 			r.Count("plus_exchanges_"+c.TLSVersion, 1)
 		}
 	}
-	r.Eval(fmt.Sprintf("%s|%s|%s|%t|%d|%d|%s|%s|%s", c.Mech, c.UserClass, c.PassClass, c.Wrong, c.SaltLen, c.Iter, c.TLSVersion, c.Via, c.RetryVariant), true)
+	r.Eval(fmt.Sprintf("%s|%s|%s|%t|%d|%d|%s|%s|%s", c.Mech, c.UserClass, c.PassClass, c.Wrong, c.SaltLen, c.Iter, c.TLSVersion, c.Via, c.RetryVariant+c.ScramExt), true)
 	if c.Via == "retry" {
 		r.Seen("retry_variants", c.RetryVariant)
 	}
